@@ -18,7 +18,7 @@ STUBS = ["pysam.AlignmentFile.pileup(**kwargs) -> contract stub: honours exactly
          "pysam.FastaFile.fetch -> the reference string; numba.vectorize / guvectorize -> numpy.vectorize of the same Python kernels"]
 ASSUMES = ["depth obligation: reads are symbolic (flags, MAPQ, base); the expected depth is a z3 term over all read variables and the four filter options",
            "threshold obligations: write_vcf_block is numpy/pandas string code (C boundary): depths and thresholds are solver-enumerated over a finite grid and the emitted lines compared with an independent oracle"]
-BOUNDS = {"quick": "depths: 2 reads x 1 position x 1 sample, all flag/MAPQ/base combinations, 6 option settings (each keep flag toggled alone at least once); thresholds: 1 site x 2 samples x counts in {0,1,3} for A,C,G, 8 threshold settings, plus counts in {0,10,100} and {9,99,1000} for 2 settings (rendering width); FORMAT AD, INFO AD and ADMF text compared; command line: 48 settings (3 keep flags x 3 mapping qualities x thresholds given/defaulted) on the repository's 3 test BAMs and 4-interval bed, arguments bound through write_vcf_block's own signature",
+BOUNDS = {"quick": "depths: 2 reads x 1 position x 1 sample, all flag/MAPQ/base combinations, 6 option settings (each keep flag toggled alone at least once); thresholds: 1 site x 2 samples x counts in {0,1,3} for A,C,G, 8 threshold settings, plus counts in {0,10,100} and {9,99,1000} for 2 settings (rendering width); FORMAT AD, INFO AD and ADMF text compared; command line: 96 settings (3 keep flags x 4 mapping qualities incl. 0 x thresholds left out / distinctive / all zero) on the repository's 3 test BAMs and 4-interval bed, arguments bound through write_vcf_block's own signature",
           "thorough": "depths: 3 reads; thresholds: 32 threshold settings, counts in {0,1,2,4}"}
 OUTSIDE = "htslib's pileup engine (overlap detection, base-quality and orphan handling are only modelled as documented defaults); depths above 1000"
 TASKS_PER_CHILD = 2
@@ -68,7 +68,7 @@ def run_config(c, col):
 # ------------------------------------------------------------------ command line -> block writer
 
 CLI_TH = {"maf": ("--maf", "0.11"), "mad": ("--mad", "3"), "ind_maf": ("--ind-maf", "0.07"), "ind_mad": ("--ind-mad", "5"), "min_ind": ("--min-ind", "2")}
-CLI_MQ = [None, 7, 33]
+CLI_MQ = [None, 0, 7, 33]
 
 
 def _cli_drive(fs, choice):
@@ -82,12 +82,13 @@ def _cli_drive(fs, choice):
     data = os.path.join(E.repo_root(), "mchap", "tests", "test_io", "data")
     keep = {k: int(choice("keep_" + k, 0, 1)) for k in ("duplicate", "qcfail", "supplementary")}
     mq = CLI_MQ[int(choice("mq", 0, len(CLI_MQ) - 1))]
-    explicit = int(choice("explicit_thresholds", 0, 1))
+    explicit = int(choice("explicit_thresholds", 0, 2))  # 0: left out, 1: distinctive values, 2: zeros (legal boundary values)
     cmd = ["mchap", "find-snvs", "--targets", os.path.join(data, "simple.bed"), "--reference", os.path.join(data, "simple.fasta"),
            "--bam"] + [os.path.join(data, "simple.sample%d.bam" % i) for i in (1, 2, 3)]
     want = {}
     for k, (flag, val) in CLI_TH.items():
         if explicit:
+            val = val if explicit == 1 else "0"
             cmd += [flag, val]
             want[k] = float(val)
     if mq is not None:
